@@ -34,14 +34,17 @@ def bfs_numpy(graph: CayleyGraph, max_diameter: int = 1000000) -> list[int]:
     layer1 = [perm_funcs[i](start_state) for i in range(pn)]
     layer1 = [np.setdiff1d(x, start_state, assume_unique=True) for x in layer1]
     _make_states_unique(layer1)
-    layer_sizes = [1, len(np.unique(np.hstack(layer1)))]
+    layer1_size = len(np.unique(np.hstack(layer1)))
+    if layer1_size == 0:
+        return [1]
+    layer_sizes = [1, layer1_size]
 
     for i in range(2, max_diameter + 1):
         layer2 = []
         for i1 in range(pn):
             # All states where we can go from layer1 by permutation i1 (except those that are in layer0).
             next_group = [perm_funcs[i1](layer1[i2]) for i2 in range(pn) if i2 != inv_perm_idx[i1]]
-            states = np.hstack(next_group)
+            states = np.hstack(next_group) if next_group else np.zeros((0,), dtype=np.int64)
             states = np.sort(states)
             for i2 in range(pn):
                 states = np.setdiff1d(states, layer0[i2], assume_unique=True)
